@@ -174,6 +174,7 @@ def _find_func(repo, qual):
 
 def _clauses(ck, repo):
     n = 0
+    claimed = set()
     for qual, clause, conds, handler, fragment in CLAUSES:
         f = _find_func(repo, qual)
         fv = FuncView(f)
@@ -188,18 +189,27 @@ def _clauses(ck, repo):
             if unparse(c.func.value) == "errors":
                 cands.append((c, unparse(c.args[0]) if c.args else ""))
         hit = None
-        for node, text in cands:
-            if fragment not in text and not (qual.endswith("_validate_enum_values_are_unique")):
-                continue
-            got = set(fv.conditions(node))
-            if not all(tuple(x) in got for x in conds):
-                continue
-            if handler is not None:
-                h = fv.enclosing(node, (ast.ExceptHandler,))
-                if h is None or handler not in handler_types(h):
+        # the message fragment only disambiguates between several reports of one validator: a reworded message is not a
+        # violation, so a report under the clause's guard that no other clause claimed is accepted as well
+        for use_text in (True, False):
+            for node, text in cands:
+                if use_text and fragment not in text and not (qual.endswith("_validate_enum_values_are_unique")):
                     continue
-            hit = node
-            break
+                if not use_text and (id(node) in claimed or any(fr in text for q2, _, _, _, fr in CLAUSES if q2 == qual and fr != fragment)):
+                    continue
+                got = set(fv.conditions(node))
+                if not all(tuple(x) in got for x in conds):
+                    continue
+                if handler is not None:
+                    h = fv.enclosing(node, (ast.ExceptHandler,))
+                    if h is None or handler not in handler_types(h):
+                        continue
+                hit = node
+                break
+            if hit is not None:
+                break
+        if hit is not None:
+            claimed.add(id(hit))
         n += 1
         ck.ob(f"clause `{clause}`: {qual.split('.')[-1]} reports it under the guard the clause names", hit is not None, f, hit or f.node, construct=f"clause:{qual.split('.')[-1]}:{clause}",
               detail=f"needs an error containing '{fragment}' under {conds}" + (f" in `except {handler}`" if handler else ""))
@@ -265,7 +275,8 @@ def _clauses(ck, repo):
     rets = vev.returns()
     kinds = {}
     for r_ in rets:
-        kinds[("empty" if unparse(r_.value) == "[]" else ("missing" if "non existing" in unparse(r_.value) else "wrong-kind"))] = set(vev.conditions(r_))
+        cs_ = set(vev.conditions(r_))
+        kinds[("empty" if unparse(r_.value) == "[]" else ("missing" if (e0, "F") in cs_ else "wrong-kind"))] = cs_
     ck.ob("_validate_extension: missing target / target of another kind / fine - exactly under those conditions",
           kinds == {"missing": {(e0, "F")}, "wrong-kind": {(e0, "T"), (f"isinstance({e0}, {e2})", "F")}, "empty": {(e0, "T"), (f"isinstance({e0}, {e2})", "T")}}, ve, ve.node,
           construct="glue:ext:_validate_extension:table", detail=str(kinds))
